@@ -1099,6 +1099,11 @@ func (s *Server) UpdateGCSafePoint(ctx context.Context, request *pdpb.UpdateGCSa
 		return &pdpb.UpdateGCSafePointResponse{Header: s.notBootstrappedHeader()}, nil
 	}
 
+	// Concurrent requests must not interleave between the load and the save,
+	// otherwise a smaller safe point could overwrite a larger one.
+	s.gcSafePointLock.Lock()
+	defer s.gcSafePointLock.Unlock()
+
 	oldSafePoint, err := s.storage.LoadGCSafePoint()
 	if err != nil {
 		return nil, err
